@@ -19,7 +19,7 @@ PROPERTY = "C08"
 
 META = {
     "bounds": {
-        "quick": "14 placement patterns (shadowing, fallback, isolation, sibling reuse, forward references, depth-3 nesting, qualified exports before/after/inside blocks) x 4 scope kinds x 3 definition kinds (label, =, :=), rename twins and unrelated-definition twins; start address and every constant value symbolic",
+        "quick": "17 placement patterns (shadowing, definitions inside taken / untaken .if and else branches (not scopes), fallback, isolation, sibling reuse, forward references, depth-3 nesting, qualified exports before/after/inside blocks) x 4 scope kinds x 3 definition kinds (label, =, :=), rename twins and unrelated-definition twins; start address and every constant value symbolic",
         "thorough": "same plus VERIF_SEED-drawn 600 random scope trees (depth <= 3, <= 5 scopes, names a,b)",
     },
     "outside": ["scope trees beyond the bound", "duplicate definitions of a name in one scope", "qualified names with more than one dot (not expressible in the source language)", "references with inferred-width instructions (C02)"],
@@ -97,6 +97,17 @@ def patterns():
             out.append((f"macro-arg-names/swapped/{dk}-{dk2}", [g.d("lo", dk), g.d("hi", dk2), ("scope", "macro", "pair", body, [("lo", "hi", ("name", "hi")), ("hi", "lo", ("name", "lo"))])]))
             g = Gen()
             out.append((f"macro-arg-names/in-block/{dk}-{dk2}", [g.d("lo", dk), g.s("block", [g.d("hi", dk2), ("scope", "macro", "pair2", [R("lo"), R("hi")], [("lo", "hi", ("name", "hi")), ("hi", "lo", ("name", "lo"))])])]))
+    # conditionals are not scopes: what the selected branch defines belongs to the enclosing scope
+    for dk in DEFKINDS:
+        for br in ("then-taken", "else-taken", "then-untaken", "else-untaken"):
+            C = lambda body: ("scope", "cond", None, body, br)  # noqa: E731
+            g = Gen()
+            out.append((f"cond-transparent/{br}/{dk}", [C([g.d("a", dk), R("a")]), R("a"), g.s("block", [R("a")])]))
+            g = Gen()
+            out.append((f"cond-shadow/{br}/{dk}", [g.d("a", "eq"), g.s("block", [C([g.d("a", dk)]), R("a")]), R("a")]))
+            for K in ("named", "macro", "loop"):
+                g = Gen()
+                out.append((f"cond-in-{K}/{br}/{dk}", [g.d("a", "assign"), g.s(K, [R("a"), C([g.d("a", dk), C([R("a")])])], "ns"), R("a")] + ([R("ns.a")] if K == "named" and br.endswith("-taken") else [])))
     for dk in DEFKINDS:
         g = Gen()
         out.append((f"export-after/{dk}", [g.s("named", [g.d("a", dk), R("a")], "ns"), R("ns.a")]))
@@ -230,7 +241,7 @@ def jobs(tier, seed):
         if pid.startswith(("shadow/block/", "shadow/macro/", "isolation/", "export-vs-local/")):
             # printing the symbol table (Program(dump_symbols=True) / --dump-symbols) must not change anything
             out.append({"id": f"dump-symbols/{pid}", "tree": tree, "dump": True})
-        tw = rename_innermost(tree)
+        tw = None if pid.startswith("cond-") else rename_innermost(tree)
         if tw is not None:
             out.append({"id": f"rename-twin/{pid}", "tree": tree, "twin": tw})
         g = Gen()
